@@ -420,12 +420,22 @@ def gen_rots(rng, n):
 
 
 # ------------------------------------------------------------------ the property evaluated on the implementation (oracle)
+def haversine_domain_error_near_antipode(case):
+    """signature of D23: the pair is within ~10 m of antipodal and haversine_distance_meters raises ValueError"""
+    p, q = tuple(case['p']), tuple(case['q'])
+    return great_circle_ref(p, q)[0] > HALF - 10.0 and \
+        guarded(lambda: haversine_distance_meters(C(p), C(q))) == ('Err', 'ValueError')
+
+
+PREDICATES = {'haversine_domain_error_near_antipode': haversine_domain_error_near_antipode}
+
+
 def oracle_pair(p, q, obs, rng, stats):
     """list of (clause, detail) violated by the implementation's own answers on this pair"""
     bad = []
     for key in ('h', 'h_rev', 'b5', 'b13', 'xyz'):
         if obs[key][0] != 'Ok':
-            bad.append((key, f'raised {obs[key][1]}'))
+            bad.append(('no_exception:' + key, f'raised {obs[key][1]}'))
     if bad:
         return bad
     h, hr, b5, b13, xyz = (obs[k][1] for k in ('h', 'h_rev', 'b5', 'b13', 'xyz'))
@@ -488,7 +498,9 @@ def oracle_dest(p, b, d, obs, stats):
     v = [math.cos(r) * u[i] + math.sin(r) * (math.cos(t) * n[i] + math.sin(t) * e[i]) for i in range(3)]
     rl, rf = math.degrees(math.atan2(v[1], v[0])), math.degrees(math.atan2(v[2], math.hypot(v[0], v[1])))
     off, _, _ = great_circle_ref((rl, rf), dd)
-    if off > 0.02:
+    if abs(p[1]) == 90:
+        stats['dest-from-pole(no bearing)'] = stats.get('dest-from-pole(no bearing)', 0) + 1
+    elif off > 0.02:
         bad.append(('dest_position', f'destination {dd!r} is {off!r} m from the point at distance/bearing ({rl!r},{rf!r})'))
     if abs(p[1]) > 89.9 or abs(dd[1]) > 89.9999 or math.sin(r) * R_EARTH < 0.5:
         stats['dest-bearing-illconditioned'] = stats.get('dest-bearing-illconditioned', 0) + 1
@@ -509,10 +521,16 @@ def unwrapped(o, p):
     return lw
 
 
-def oracle_rot(o, p, a, out, rng):
+def oracle_rot(o, p, a, out, rng, stats):
     bad = []
     if out[0] != 'Ok':
         return [('rot', f'raised {out[1]}')]
+    if p[0] == -180 and o[0] > 0:
+        # ensure_edge_bounds cannot un-wrap longitude -180 towards a positive origin (Coordinate(180,
+        # _bounded=False) is folded back to -180): the model is faithful (wrap case Wplus180, checked by the
+        # interval tie) and C07_rot_unwrap states what holds; the nearest-representation laws below do not apply
+        stats['rot-unwrap-180-quirk'] = stats.get('rot-unwrap-180-quirk', 0) + 1
+        return bad
     r = out[1]
     ar = math.radians(a)
     dx, dy = unwrapped(o, p) - o[0], p[1] - o[1]
@@ -579,6 +597,11 @@ def main():
             nontrivial.add((p, q))
         m = {'k': 'pair', 'class': cls, 'p': p, 'q': q, 'obs': {k: v[1] for k, v in obs.items()}}
         for clause, detail in oracle_pair(p, q, obs, rng, stats):
+            f = ck.finding_for(m, PREDICATES) if clause.startswith('no_exception:h') else None
+            if f:
+                ck.known(f)
+                stats['known:' + f['id']] = stats.get('known:' + f['id'], 0) + 1
+                continue
             violations.append(dict(m, clause=clause, detail=detail))
         if i < n_pairs_k and all(v[0] == 'Ok' for v in obs.values()):
             addk('hdist', k_hdist(f'k_h_{i}', p, q, obs['h'][1]), m)
@@ -608,7 +631,7 @@ def main():
         ck.count('rot:' + cls)
         nontrivial.add((o, p, a))
         m = {'k': 'rot', 'class': cls, 'o': o, 'p': p, 'angle': a, 'obs': out[1]}
-        for clause, detail in oracle_rot(o, p, a, out, rng):
+        for clause, detail in oracle_rot(o, p, a, out, rng, stats):
             violations.append(dict(m, clause=clause, detail=detail))
         if i < n_rot_k and out[0] == 'Ok':
             addk('rot', k_rot(f'k_r_{i}', o, p, a, out[1]), m)
@@ -687,7 +710,7 @@ def replay(path):
         o, p = tuple(m['o']), tuple(m['p'])
         out = impl_rot(o, p, m['angle'])
         print('implementation now:', out)
-        print('property clauses violated now:', oracle_rot(o, p, m['angle'], out, random.Random(0)))
+        print('property clauses violated now:', oracle_rot(o, p, m['angle'], out, random.Random(0), {}))
     if 'gallina_case' in r:
         print('model side (Coq lemma the run could not prove):\n' + r['gallina_case'])
 
